@@ -268,33 +268,38 @@ def rule_placeholders(chk, tab, placeholders):
 
 def rule_wiring(chk):
     """pointer set-up: source names against src., destination names against dst."""
-    import importlib.util
-    spec = importlib.util.spec_from_file_location('c20mod', os.path.join(os.path.dirname(os.path.abspath(__file__)), 'c20.py'))
-    c20 = importlib.util.module_from_spec(spec)
-    spec.loader.exec_module(c20)
-    eq = M.py(EQ)
     ah = M.py(AH)
-    ae = M.py('pysph/sph/acceleration_eval.py')
-    ev = c20.make_evaluator([ae, eq])
     cls = M.find_class(ah, 'AccelerationEvalCythonHelper')
-    for fname, side, obj in (('get_src_array_setup', 'S', 'src'), ('get_dest_array_setup', 'D', 'dst')):
+    # what the generators emit for model groups: source names against src., destination names (of the equations with and without
+    # sources) against dst., each bound to the array of the same name without its prefix
+    it0 = EM.interpreter()
+    helper0 = EM.instance(it0, AH, 'AccelerationEvalCythonHelper')
+
+    def names(src_names, dst_names):
+        return lambda interp, args, kwargs, node, env: (set(src_names), set(dst_names))
+    for fname, obj in (('get_src_array_setup', 'src'), ('get_dest_array_setup', 'dst')):
         fn = M.find_func(cls, fname)
-        _, env = ev.run_function(fn, [T.EMPTY] * 4, selfval=T.EMPTY)
-        comps = [c for c in ast.walk(fn) if isinstance(c, ast.ListComp) and isinstance(c.elt, ast.BinOp) and isinstance(c.elt.op, ast.Mod)]
-        if len(comps) != 1:
-            chk.undecided('pointer-wiring', fname, node=fn, file=AH, func=fname, detail='cannot find the single `X = obj.X.data` comprehension')
-            continue
-        c = comps[0]
-        fmt = M.const_str(c.elt.left)
-        it = c.generators[0].iter
-        tg = set(T.flat(ev.ev(it, env)))
-        other = 'D' if side == 'S' else 'S'
-        okfmt = fmt == '%%s = %s.%%s.data' % obj and compact(c.elt.right) == '(n,n[2:])'
-        chk.decide(okfmt, 'pointer-wiring', fname + ':format', node=c, file=AH, func=fname,
-                   detail_bad='emits %r %% %s; expected "<name> = %s.<name without prefix>.data"' % (fmt, U(c.elt.right), obj), detail_ok=fmt)
-        chk.decide(side in tg and other not in tg, 'pointer-wiring', fname + ':names', node=c, file=AH, func=fname,
-                   detail_bad='the names bound against %s. have provenance %s (expected only %s-side names)' % (obj, sorted(tg), 'source' if side == 'S' else 'destination'),
-                   detail_ok='%s-side names only (%s)' % ('source' if side == 'S' else 'destination', sorted(tg)))
+        try:
+            if obj == 'src':
+                text = EM.call(it0, helper0, fname, 'solid', EM.mock(get_array_names=names(['s_x', 's_rho', 's_d_mix'], ['d_au', 'd_x'])))
+                want = {'s_x': 'src.x.data', 's_rho': 'src.rho.data', 's_d_mix': 'src.d_mix.data'}
+            else:
+                text = EM.call(it0, helper0, fname, 'fluid', EM.mock(get_array_names=names(['s_q'], ['d_x', 'd_au'])),
+                               {'solid': EM.mock(get_array_names=names(['s_x', 's_m'], ['d_rho', 'd_x'])), 'fluid': EM.mock(get_array_names=names(['s_h'], ['d_s_mix']))},
+                               EM.mock(start_idx=0, stop_idx=None, real=True))
+                want = {'d_x': 'dst.x.data', 'd_au': 'dst.au.data', 'd_rho': 'dst.rho.data', 'd_s_mix': 'dst.s_mix.data'}
+            got = {}
+            for st in ast.parse(textwrap.dedent(text)).body:
+                if isinstance(st, ast.Assign) and len(st.targets) == 1 and isinstance(st.targets[0], ast.Name) and st.targets[0].id[:2] in ('s_', 'd_'):
+                    got[st.targets[0].id] = compact(st.value)
+            chk.decide(got == want, 'pointer-wiring', fname + ':format', node=fn, file=AH, func=fname,
+                       detail_bad='for model groups the generator binds %s; expected %s ("<name> = %s.<name without prefix>.data" for exactly the %s arrays of the group)'
+                                  % (got, want, obj, 'source' if obj == 'src' else 'destination'), detail_ok='<name> = %s.<name without prefix>.data' % obj)
+            other = 's_' if obj == 'dst' else 'd_'
+            chk.decide(not [k for k in got if k.startswith(other)] and set(got) >= set(want), 'pointer-wiring', fname + ':names', node=fn, file=AH, func=fname,
+                       detail_bad='the names bound against %s. are %s' % (obj, sorted(got)), detail_ok='%s-side names only (%s)' % ('source' if obj == 'src' else 'destination', sorted(got)))
+        except (A.Unsupported, A.Raised, SyntaxError) as e:
+            chk.undecided('pointer-wiring', fname, node=fn, file=AH, func=fname, detail='generator not interpretable on the model group: %s' % e)
     # template binds src / dst to the arrays named by the loop variables
     tpl = MT.parse_template(TPL)
     lines = MT.skeleton(tpl.fn('do_group'))
@@ -316,30 +321,60 @@ def rule_wiring(chk):
         raise AnalysisError('template shape not parseable: %s' % e)
     w = M.find_class(mod2, 'ParticleArrayWrapper')
     sa = M.find_func(w, 'set_array')
-    loops = [l for l in ast.walk(sa) if isinstance(l, ast.For)]
-    bound = {}
-    for l in loops:
-        for c in M.calls(l):
-            if M.call_name(c) == 'setattr' and len(c.args) == 3 and compact(c.args[0]) == 'self' and compact(c.args[1]) == compact(l.target) \
-                    and compact(c.args[2]) == 'pa.get_carray(%s)' % compact(l.target):
-                it = compact(l.iter)
-                defs = [a for a in ast.walk(sa) if isinstance(a, ast.Assign) and compact(a.targets[0]) == it]
-                bound[it] = [compact(a.value) for a in defs]
-    props_ok = any('pa.properties.keys()' in ' '.join(v) for v in bound.values())
-    const_ok = 'pa.constants.keys()' in bound or any('pa.constants' in ' '.join(v) for v in bound.values())
-    chk.decide(props_ok, 'pointer-wiring', 'wrapper-rebinds-properties', node=sa, file=TPL, func='ParticleArrayWrapper.set_array',
-               detail_bad='set_array does not bind every property carray of the new array', detail_ok='setattr(self, prop, pa.get_carray(prop)) for all properties')
-    chk.decide(const_ok, 'pointer-wiring', 'wrapper-rebinds-constants', node=sa, file=TPL, func='ParticleArrayWrapper.set_array',
-               detail_bad='set_array does not re-bind the constants: after update_particle_arrays the d_/s_ pointers of constants still refer to the '
-                          'previous particle array', detail_ok='constants re-bound as well')
-    init_w = M.find_func(w, '__init__')
-    chk.decide(any(M.call_name(c) == 'self.set_array' for c in M.calls(init_w)), 'pointer-wiring', 'wrapper-init-uses-set_array', node=init_w, file=TPL,
-               func='ParticleArrayWrapper.__init__', detail_bad='construction and re-binding use different code', detail_ok='__init__ calls set_array')
     aev = M.find_class(mod2, 'AccelerationEval')
     upa = M.find_func(aev, 'update_particle_arrays')
-    ok = any(isinstance(l, ast.For) and compact(l.iter) == 'particle_arrays' and 'getattr(self,name).set_array(pa)' in compact(l) for l in ast.walk(upa))
-    chk.decide(ok, 'pointer-wiring', 'update-rebinds-every-array', node=upa, file=TPL, func='AccelerationEval.update_particle_arrays',
-               detail_bad='update_particle_arrays does not call set_array for every array', detail_ok='set_array for every array')
+    # decided on a model: the wrapper / evaluator classes of the template are interpreted on two model particle arrays whose
+    # get_carray returns a token naming (array, property); afterwards every property and constant of the *new* array must be bound
+    PA_MODEL = """
+class PA:
+    def __init__(self, name, props, consts):
+        self.name = name
+        self.properties = props
+        self.constants = consts
+    def get_carray(self, n):
+        return ('carray', self.name, self.gen, n)
+    def get_number_of_particles(self, real=False):
+        return 0
+"""
+    try:
+        it = EM.interpreter()
+        EM.model_module(it, '<tpl>', mod2)
+        EM.model_module(it, '<pa>', PA_MODEL)
+
+        def pa(name, gen, props, consts):
+            return EM.instance(it, '<pa>', 'PA', name=name, gen=gen, properties=dict((k, None) for k in props), constants=dict((k, None) for k in consts))
+        w1 = EM.instance(it, '<tpl>', 'ParticleArrayWrapper')
+        EM.call(it, w1, '__init__', pa('fluid', 0, ['x', 'rho'], ['c0']), 0)
+        first = dict(w1.attrs)
+        EM.call(it, w1, 'set_array', pa('fluid', 1, ['x', 'rho', 'p'], ['c0', 'k']))
+        second = dict(w1.attrs)
+        init_ok = all(first.get(n) == ('carray', 'fluid', 0, n) for n in ('x', 'rho', 'tag', 'pid', 'gid', 'c0'))
+        props_ok = all(second.get(n) == ('carray', 'fluid', 1, n) for n in ('x', 'rho', 'p', 'tag', 'pid', 'gid'))
+        const_ok = all(second.get(n) == ('carray', 'fluid', 1, n) for n in ('c0', 'k'))
+        arr_ok = isinstance(second.get('array'), A.Obj) and second['array'].attrs.get('gen') == 1
+        # the evaluator: every array handed to update_particle_arrays reaches its own wrapper
+        wf = EM.instance(it, '<tpl>', 'ParticleArrayWrapper')
+        ws = EM.instance(it, '<tpl>', 'ParticleArrayWrapper')
+        ev_ = EM.instance(it, '<tpl>', 'AccelerationEval', fluid=wf, solid=ws)
+        EM.call(it, ev_, 'update_particle_arrays', [pa('fluid', 2, ['x'], ['c0']), pa('solid', 2, ['x', 'm'], [])])
+        upd_ok = wf.attrs.get('x') == ('carray', 'fluid', 2, 'x') and wf.attrs.get('c0') == ('carray', 'fluid', 2, 'c0') \
+            and ws.attrs.get('m') == ('carray', 'solid', 2, 'm') and ws.attrs.get('x') == ('carray', 'solid', 2, 'x')
+        shown = dict((k, v) for k, v in second.items() if isinstance(v, tuple))
+    except (A.Unsupported, A.Raised) as e:
+        chk.undecided('pointer-wiring', 'wrapper-model', node=sa, file=TPL, func='ParticleArrayWrapper.set_array', detail='cannot interpret the wrapper on the model arrays: %s' % e)
+        init_ok = props_ok = const_ok = arr_ok = upd_ok = None
+    if props_ok is not None:
+        chk.decide(props_ok and arr_ok, 'pointer-wiring', 'wrapper-rebinds-properties', node=sa, file=TPL, func='ParticleArrayWrapper.set_array',
+                   detail_bad='after set_array(new array) the wrapper holds %s: not every property carray (and tag/pid/gid) of the new array is bound' % shown,
+                   detail_ok='model run: every property + tag/pid/gid bound to pa.get_carray(<same name>) of the new array')
+        chk.decide(const_ok, 'pointer-wiring', 'wrapper-rebinds-constants', node=sa, file=TPL, func='ParticleArrayWrapper.set_array',
+                   detail_bad='set_array does not re-bind the constants (%s): after update_particle_arrays the d_/s_ pointers of constants still refer to the '
+                              'previous particle array' % shown, detail_ok='constants re-bound as well')
+        chk.decide(init_ok, 'pointer-wiring', 'wrapper-init-uses-set_array', node=M.find_func(w, '__init__'), file=TPL,
+                   func='ParticleArrayWrapper.__init__', detail_bad='a freshly constructed wrapper does not hold every property/constant carray of its array',
+                   detail_ok='construction binds the same set as set_array')
+        chk.decide(upd_ok, 'pointer-wiring', 'update-rebinds-every-array', node=upa, file=TPL, func='AccelerationEval.update_particle_arrays',
+                   detail_bad='update_particle_arrays does not re-bind every array handed to it to the wrapper of the same name', detail_ok='model run with two arrays: each re-bound to its own wrapper')
     # known types for both prefixes
     kt = M.find_func(ah, 'get_known_types_for_arrays')
     try:
